@@ -40,6 +40,30 @@ Lemma numa_witness_other_order :
   end.
 Proof. vm_compute. reflexivity. Qed.
 
+(* since /repo 3d8e6c0 GetCPUPlans visits the origin's NUMA node first: with the
+   order the code uses now the witness keeps its cores and its NUMA node *)
+Lemma numa_witness_now :
+  numa_visit_order (put_back numa_info numa_origin) (wr_cpumap numa_origin) = ["1"; "0"] /\
+  match numa_run (numa_visit_order (put_back numa_info numa_origin) (wr_cpumap numa_origin)) with
+  | Ok (inr (new, _)) => keeps_cores numa_origin new = true
+  | _ => False
+  end.
+Proof. split; vm_compute; reflexivity. Qed.
+
+(* (i') NUMA memory.  Same node; the workload on core 1 (node "1", 100 memory)
+   asks for 1950 more memory: node "1" has only 2000, so no plan comes from it and
+   the request is granted across NUMA nodes: same core, NUMA node cleared (on the
+   current code, with the order it uses). *)
+Definition grow_req : wreq := mkReq false true f_zero f_zero 1950 1950.
+Lemma numa_memory_witness :
+  match calculate_realloc numa_info 100 (-1) numa_origin grow_req
+          (numa_visit_order (put_back numa_info numa_origin) (wr_cpumap numa_origin))
+          (default_fuel (put_back numa_info numa_origin)) with
+  | Ok (inr (new, _)) => keeps_cores numa_origin new = false /\ wr_numanode new = ""
+  | _ => False
+  end.
+Proof. vm_compute. split; reflexivity. Qed.
+
 (* (ii) fractional bound workload, no NUMA.  4 whole cores; one workload of 1.5
    cpu holding 50 pieces of core 0 and all of core 1.  After the origin is put
    back the planner hands out core 0 whole and 50 pieces of core 1. *)
